@@ -1105,7 +1105,10 @@ static int ec_at(char *loc, char *cmd, char *arg, char *txt)
 		sbuf_free(r);
 		return ret;
 	}
-	return ex_command(buf);
+	buf = uc_dup(buf);	/* the commands may replace the register they are read from */
+	lnmode = ex_command(buf);
+	free(buf);
+	return lnmode;
 }
 
 static int ec_source(char *loc, char *cmd, char *arg, char *txt)
